@@ -387,7 +387,7 @@ def _calculate_transition_events(
         # Drop last event if it is on the last timestep (side effect of np.roll)
         if i[-1] == len(atom_site) - 1:
             i = i[:-1]
-        if i2[-1] == len(atom_inner_site) - 1:
+        if len(i2) > 0 and i2[-1] == len(atom_inner_site) - 1:
             i2 = i2[:-1]
 
         time = np.unique(np.concatenate((i, i2)))
